@@ -19,7 +19,7 @@ CLAIMS = {
     "C07": "MOSTLY RUNTIME: the only Lean obligations are two tripwires over tables regenerated from the source by ast walks: set_sites_reviewed (every iteration over a set/frozenset) and nondet_sites_reviewed (every use of the clock, randomness, np.empty, the environment, id(), sys.setrecursionlimit-style interpreter settings and `global` statements) must be contained in reviewed lists, so a new hash-ordered loop or a new source of run-to-run variation breaks the build. Determinism across hash seeds and processes, absence of hidden state across invocations and non-mutation of inputs are decided on the real code by the determinism stream (PYTHONHASHSEED 0-3 / 0-8, reversed order, diff-of-diff-result snapshot). Key-order independence of the model is C08.",
     "C08": "FULL on the model: build_perm_dict / dict_perm_script (permuting keys at any depth yields the identical tree and script under the auto and match strategies), perm_equal / perm_cost_zero (every strategy), fdict_perm_cost (strategy none, any depth) and fdict_perm_pairing (strategy none, ROOT mapping only), list_swap_positive.",
     "C09": "THIN: in the model the JSON, JSON5 and YAML loaders are the same function (build) and plist adds a wrapper, so same_data_zero / third_doc_independent are consequences of C02 (equal trees cost 0) plus that modelling decision; the real content is (i) the ASSUMPTION, checked on every run, that the four real parsers return equal Python objects, (ii) the exact correspondence of the 4x4 zero-cost matrix and exit statuses incl. explicit type flags, and (iii) the witness theorem for finding D10 (plist on the to-side is a Replace).",
-    "C10": "FULL on the model at every nesting level: none_no_cross_key, none_no_multiset, auto_same_key_paired, no_list_edits_positional, no_list_edits_same_length_positional (lists and mappings built by build_tree; the list options never reach XML children or CSV rows, which is stated). The stream exercises all 16 combinations of the four build options.",
+    "C10": "FULL on the model at every nesting level: none_no_cross_key, none_no_multiset, auto_same_key_paired, no_list_edits_positional, no_list_edits_same_length_positional (lists and mappings built by build_tree; a CSV table is the list of lists of strings the CSV loader builds, rows and cells carrying the list options) and, for the children of XML / HTML elements, xml_no_list_edits_positional, xml_no_list_edits_same_length_positional (+ _docs, _children, xml_list_edits_allowed). The streams exercise all 16 combinations of the four build options on JSON trees, default / -l / -ll on CSV tables through the real loader, and eight option sets on XML / HTML elements (direct and through both registered file types).",
     "C11": "FULL on the model: string_edit_minimal, kept_longest, removed_plus_inserted_minimal, strScript_reconstructs against an independent specification (List.Sublist, lcs); the greedy matrix of EditDistance is proved to compute the optimal insert/delete distance on unit-cost characters (it is NOT optimal on weighted lists, which no property claims). str strings only (a diff of bytes raises TypeError in the code).",
     "C12": "read_print (JSON: any nesting the printer can handle, all code points incl. lone surrogates, any integer; floats opaque) and csv_read_print (cells without CR) on the model of printer and reader; JSON5 shares the JSON printer and, since the loader fix, the surrogate-joining reader. YAML, plist and XML round trips are decided on the real code only. The real printer hits Python's recursion limit at about 150-200 levels of nesting (outside the exercised domain: depth <= 30).",
     "C13": "dispatch_total / dispatch_total_from_subformatters: over the regenerated formatter registry and class MROs, the formatter dispatch finds a print_* handler for every concrete node class (plain and Edited variants) from every formatter instance — no fallback needed; edit_dispatch_total records that every edit class has a formatter method or its own print. The ~1500 lines of handler BODIES are not modelled: that half is decided on the real code by exhaustive enumeration of input type x output format x mode x colour x condensed x option flags (thorough: 17k runs). Findings D11, D18.",
